@@ -3,6 +3,7 @@ package interpreter
 import (
 	"bufio"
 	"fmt"
+	"io"
 	"os"
 	"strings"
 	"time"
@@ -49,10 +50,13 @@ func (n NativeInputFn) Call(i *Interpreter, arguments []interface{}) (interface{
 		fmt.Print(prompt)
 	}
 
-	// Read the input from the user
-	reader := bufio.NewReader(os.Stdin)
-	input, err := reader.ReadString('\n')
-	if err != nil {
+	// Read the next line. All calls share one buffered reader (a fresh reader per call swallowed
+	// the rest of piped input), and a last line without a newline still counts as a line.
+	if i.stdin == nil {
+		i.stdin = bufio.NewReader(os.Stdin)
+	}
+	input, err := i.stdin.ReadString('\n')
+	if err != nil && (err != io.EOF || input == "") {
 		return nil, fmt.Errorf("failed to read input: %v", err)
 	}
 
